@@ -275,6 +275,47 @@ func init() {
 		return nil, ctlRet
 	})
 
+	// ----- klauspost zstd encoder as an opaque object (C16: the wrapper's pooling logic, not the algorithm) -----
+	// NewWriter allocates a fresh encoder object; Reset/Close/Write/ReadFrom do not touch it. The stream an
+	// encoder produces is not modelled (third-party compression loop, outside the claim): Write accepts everything.
+	const kz = "github.com/klauspost/compress/zstd"
+	reg(kz+".NewWriter", func(ex *Exec, st *State, fr *Frame, args []Value) (Value, ctlT) {
+		et := ex.prog.byPath[kz].Type("Encoder").Type()
+		return TupleVal{st.newPtr(ex.zero(et)), IfaceVal{}}, ctlRet
+	})
+	for _, n := range []string{"WithEncoderLevel", "WithEncoderConcurrency", "WithZeroFrames"} {
+		reg(kz+"."+n, func(ex *Exec, st *State, fr *Frame, args []Value) (Value, ctlT) { return (*FuncVal)(nil), ctlRet })
+	}
+	reg(kz+".EncoderLevelFromZstd", func(ex *Exec, st *State, fr *Frame, args []Value) (Value, ctlT) { return C(64, 2), ctlRet })
+	reg("(*"+kz+".Encoder).Reset", func(ex *Exec, st *State, fr *Frame, args []Value) (Value, ctlT) {
+		if args[0].(PtrVal).IsNil() {
+			ex.runtimePanic(st, "nil pointer dereference (zstd encoder)")
+			return nil, ctlEnd
+		}
+		return nil, ctlRet
+	})
+	reg("(*"+kz+".Encoder).Close", func(ex *Exec, st *State, fr *Frame, args []Value) (Value, ctlT) {
+		if args[0].(PtrVal).IsNil() {
+			ex.runtimePanic(st, "nil pointer dereference (zstd encoder)")
+			return nil, ctlEnd
+		}
+		return IfaceVal{}, ctlRet
+	})
+	reg("(*"+kz+".Encoder).Write", func(ex *Exec, st *State, fr *Frame, args []Value) (Value, ctlT) {
+		if args[0].(PtrVal).IsNil() {
+			ex.runtimePanic(st, "nil pointer dereference (zstd encoder)")
+			return nil, ctlEnd
+		}
+		s := args[1].(SliceVal)
+		var n *Term
+		if s.LenT != nil {
+			n = s.LenT
+		} else {
+			n = C(64, uint64(s.Len))
+		}
+		return TupleVal{n, IfaceVal{}}, ctlRet
+	})
+
 	// ----- Cond -----
 	// Cond: Wait = unlock L, block until the generation counter moves (Signal/Broadcast), lock L again.
 	// Spurious wake-ups are legal in Go's contract (callers loop), Signal is modelled as Broadcast.
